@@ -114,7 +114,8 @@ theorem pdwait_moves (x : Exec s0) (hr : Reachable s0) (hf : WeakFair x) {i : Na
   exact hnm j' (by omega) h4
 
 /-- Every thread inside nsync_counter_wait keeps moving while the counter stays zero. -/
-theorem wait_moves (x : Exec s0) (hr : Reachable s0) (hf : WeakFair x) (ha : FiniteArrivals x) {i : Nat}
+theorem wait_moves (x : Exec s0) (hr : Reachable s0) (hf : WeakFair x)
+    (hlock : ∃ n2, ∀ j, n2 ≤ j → (x.ρ j).sh.lockHolder = none) {i : Nat}
     (hz : ∀ j, i ≤ j → (x.ρ j).sh.value = 0) {t : Tid} {j0 : Nat} (hj0 : i ≤ j0)
     (hw : 0 < wrank ((x.ρ j0).pc t)) : ∃ j', j0 ≤ j' ∧ Moves x t j' := by
   by_cases hpd : ∃ dl k j, (x.ρ j0).pc t = .wPdWait dl k j
@@ -125,7 +126,7 @@ theorem wait_moves (x : Exec s0) (hr : Reachable s0) (hf : WeakFair x) (ha : Fin
     have hnm : ∀ j', j0 ≤ j' → ¬ Moves x t j' := fun j' hj hm => hn ⟨j', hj, hm⟩
     have hpc : ∀ j', j0 ≤ j' → (x.ρ j').pc t = (x.ρ j0).pc t :=
       fun j' hj => frame_between x hj (fun j'' h1 _ => hnm j'' h1)
-    obtain ⟨n2, hfree⟩ := lock_eventually_free x hr hf ha
+    obtain ⟨n2, hfree⟩ := hlock
     have hne : (x.ρ j0).pc t ≠ .idle := by intro h; rw [h] at hw; simp [wrank] at hw
     obtain ⟨j', h3, h4⟩ := fair_move x hf (t := t) (i := max j0 n2) (by rw [hpc _ (by omega)]; exact hne) (by
       intro j' hj _
@@ -136,7 +137,8 @@ theorem wait_moves (x : Exec s0) (hr : Reachable s0) (hf : WeakFair x) (ha : Fin
 
 /-- Every thread inside nsync_counter_wait while the counter stays zero returns, with result 0
     unless it already was at its return point with another result. -/
-theorem fair_return_zero (x : Exec s0) (hr : Reachable s0) (hf : WeakFair x) (ha : FiniteArrivals x) {i : Nat}
+theorem fair_return_zero (x : Exec s0) (hr : Reachable s0) (hf : WeakFair x)
+    (hlock : ∃ n2, ∀ j, n2 ≤ j → (x.ρ j).sh.lockHolder = none) {i : Nat}
     (hz : ∀ j, i ≤ j → (x.ρ j).sh.value = 0) (t : Tid) :
     ∀ m j, i ≤ j → wrank ((x.ρ j).pc t) ≤ m → ((x.ρ j).pc t = .idle ∨ 0 < wrank ((x.ρ j).pc t)) →
       ∃ j', j ≤ j' ∧ (x.ρ j').pc t = .idle ∧
@@ -156,7 +158,7 @@ theorem fair_return_zero (x : Exec s0) (hr : Reachable s0) (hf : WeakFair x) (ha
     · refine ⟨j, Nat.le_refl _, hw, fun j'' h1 h2 dl r h => ?_⟩
       have : j'' = j := by omega
       subst this; exact Or.inr h
-    · obtain ⟨j1, h1, h2, h3⟩ := first_move' x (wait_moves x hr hf ha hz hj hw)
+    · obtain ⟨j1, h1, h2, h3⟩ := first_move' x (wait_moves x hr hf hlock hz hj hw)
       have hpc : ∀ j', j ≤ j' → j' ≤ j1 → (x.ρ j').pc t = (x.ρ j).pc t :=
         fun j' a b => frame_between x a (fun j'' c d => h3 j'' c (by omega))
       obtain ⟨e, _, g, _⟩ := moves_prog x hr h2
